@@ -1034,3 +1034,390 @@ pub fn c05(args: &Args) -> i32 {
         1
     }
 }
+
+// ---- C11: bytecode contract ---------------------------------------------------------------------
+
+fn c11_gen(seed: u64, idx: u64, corpus: &Corpus, thorough: bool) -> (Case, Vec<u8>) {
+    let mut rng = Rng::derive(seed, 0xC11, idx);
+    let mut case = if (idx as usize) < corpus.items.len() {
+        let it = &corpus.items[idx as usize];
+        Case { code: it.0.clone(), bits: *rng.pick(&[8u32, 16, 32, 64]), family: Family::Corpus, fixed_input: it.1.clone() }
+    } else {
+        gen_case("C03", &mut rng, corpus, thorough)
+    };
+    // pressure x roaming: runtime calls with many live temporaries
+    if case.family == Family::Pressure && rng.chance(1, 3) {
+        let mv = if rng.chance(1, 2) { ">" } else { "<" };
+        let n = rng.range(1, 40) as usize;
+        case.code = case.code.replacen('[', &format!("[{}", mv.repeat(n)), 1);
+        // keep balanced pointer: irrelevant for validity, the spec decides what it means
+    }
+    let inputs = match &case.fixed_input {
+        Some(i) => vec![i.clone()],
+        None => gen::inputs(&mut rng, false),
+    };
+    let input = inputs[(idx as usize) % inputs.len()].clone();
+    (case, input)
+}
+
+fn c11_translate(code: &str, bits: u32, level: u32, nregs: usize, fuse: bool) -> Option<crate::bcview::BcView> {
+    use hpbf::{bc, ir};
+    fn go<C: hpbf::CellType>(code: &str, level: u32, nregs: usize, fuse: bool) -> Option<crate::bcview::BcView> {
+        let p = ir::Program::<C>::parse(code).ok()?.optimize(level);
+        Some(crate::bcview::view(&bc::CodeGen::translate(&p, nregs, fuse)))
+    }
+    match bits {
+        8 => go::<u8>(code, level, nregs, fuse),
+        16 => go::<u16>(code, level, nregs, fuse),
+        32 => go::<u32>(code, level, nregs, fuse),
+        _ => go::<u64>(code, level, nregs, fuse),
+    }
+}
+
+fn c11_case(seed: u64, idx: u64, corpus: &Corpus, thorough: bool) -> Option<String> {
+    let (case, input) = c11_gen(seed, idx, corpus, thorough);
+    if spec::check_brackets(&case.code).is_err() {
+        return None;
+    }
+    let sp = spec::run(&case.code, &input, spec_opts(case.bits, false, false));
+    sys::shared().scratch[1] += 1;
+    for level in [0u32, 1, 2, 3] {
+        for (nregs, fuse) in [(2usize, true), (11usize, false)] {
+            let v = match std::panic::catch_unwind(|| c11_translate(&case.code, case.bits, level, nregs, fuse)) {
+                Ok(Some(v)) => v,
+                Ok(None) => return Some(format!("L{level} regs{nregs}: parse failed on a balanced program")),
+                Err(_) => return Some(format!("L{level} regs{nregs}: translate panicked")),
+            };
+            sys::shared().scratch[2] += 1;
+            sys::shared().scratch[3] += v.insts.len() as u64;
+            if v.temps > nregs {
+                sys::shared().scratch[6] += 1;
+            }
+            let nbr = v.insts.iter().filter(|i| matches!(i, crate::bcview::I::BrZ(..) | crate::bcview::I::BrNZ(..))).count();
+            sys::shared().scratch[7] += nbr as u64;
+            let vs = crate::bcref::validate(&v, nregs);
+            if let Some(f) = vs.first() {
+                return Some(format!("L{level} regs{nregs}: static {}@{}: {}", f.rule, f.at, f.detail));
+            }
+            // dynamic shadow: adversarial-contract interpretation must still produce the canonical events
+            if let Some(sp) = &sp {
+                if sp.status == Status::Halted {
+                    let r = crate::bcref::interp(&v, &input, nregs, true, 4_000_000, EV_CAP);
+                    sys::shared().scratch[4] += 1;
+                    sys::shared().scratch[5] += r.steps;
+                    if let Some(tr) = r.trap {
+                        return Some(format!("L{level} regs{nregs}: dynamic {tr}"));
+                    }
+                    if r.finished && (r.events != sp.events || r.total_events != sp.total_events) {
+                        return Some(format!(
+                            "L{level} regs{nregs}: dynamic events of the adversarial interpretation differ from the canonical run: expected [{}] observed [{}]",
+                            spec::fmt_events(&sp.events, 10),
+                            spec::fmt_events(&r.events, 10)
+                        ));
+                    }
+                }
+            }
+        }
+    }
+    None
+}
+
+pub fn c11(args: &Args) -> i32 {
+    let corpus = load_corpus(&args.corpus);
+    let mut t = Tally::new("C11", &args.replay_dir);
+    let start = std::time::Instant::now();
+    let per = args.count;
+    let from = args.shard * per;
+    let to = from + per;
+    let found = crate::props::batched(from, to, 400, 0, |i| c11_case(args.seed, i, &corpus, args.thorough));
+    for i in from..to {
+        let (case, input) = c11_gen(args.seed, i, &corpus, args.thorough);
+        if case.code.contains('[') {
+            t.distinct.insert(fnv64(format!("{}|{}", case.code, case.bits).as_bytes()));
+        }
+        if t.samples.len() < 4 && i % 97 == 5 {
+            if let Some(v) = c11_translate(&case.code, case.bits, 2, 11, false) {
+                let listing: Vec<String> = v.insts.iter().take(12).enumerate().map(|(k, ins)| format!("{k}:{ins:?} live={:04x}", v.live[k])).collect();
+                t.sample(Obj::new().s("program", &case.code[..case.code.len().min(160)]).n("bits", case.bits).s("input_hex", &json::hex(&input)).n("temps", v.temps).s("window", &format!("[{}, {}]", v.min, v.max)).s("bytecode_head", &listing.join(" | ")).done());
+            }
+        }
+    }
+    let sh = sys::shared();
+    t.inc("programs", sh.scratch[1]);
+    t.inc("evaluations", sh.scratch[2]);
+    t.inc("bytecode_programs_validated", sh.scratch[2]);
+    t.inc("bytecode_instructions_validated", sh.scratch[3]);
+    t.inc("adversarial_interpretations", sh.scratch[4]);
+    t.inc("adversarial_steps", sh.scratch[5]);
+    t.inc("bytecodes_with_spilled_temporaries", sh.scratch[6]);
+    t.inc("branches_checked", sh.scratch[7]);
+    for (i, why) in found {
+        t.inc("violated", 1);
+        let (case, input) = c11_gen(args.seed, i, &corpus, args.thorough);
+        let rule = why.split(':').nth(1).unwrap_or("").trim().split('@').next().unwrap_or("").to_string();
+        t.violation(&rule, Obj::new().s("kind", "bytecode").s("program", &case.code).n("bits", case.bits).s("input_hex", &json::hex(&input)).n("case_seed", args.seed).n("index", i).s("why", &why));
+    }
+    t.write(&args.out, &[("wall_s".to_string(), format!("{:.2}", start.elapsed().as_secs_f64()))]);
+    if t.violations.is_empty() {
+        0
+    } else {
+        1
+    }
+}
+
+pub fn c11_replay(args: &Args) -> i32 {
+    let code = args.get("code").unwrap_or("").to_string();
+    let bits = args.get_u64("bits", 8) as u32;
+    let input = json::unhex(args.get("input-hex").unwrap_or(""));
+    let sp = spec::run(&code, &input, spec_opts(bits, false, false));
+    let mut bad = 0;
+    for level in [0u32, 1, 2, 3] {
+        for (nregs, fuse) in [(2usize, true), (11usize, false)] {
+            if let Some(v) = c11_translate(&code, bits, level, nregs, fuse) {
+                for f in crate::bcref::validate(&v, nregs) {
+                    println!("L{level} regs{nregs}: {:?}", f);
+                    bad += 1;
+                }
+                if let Some(sp) = &sp {
+                    if sp.status == Status::Halted {
+                        let r = crate::bcref::interp(&v, &input, nregs, true, 4_000_000, EV_CAP);
+                        if let Some(tr) = r.trap {
+                            println!("L{level} regs{nregs}: {tr}");
+                            bad += 1;
+                        } else if r.finished && r.events != sp.events {
+                            println!("L{level} regs{nregs}: adversarial events differ");
+                            bad += 1;
+                        }
+                    }
+                }
+            }
+        }
+    }
+    if bad > 0 {
+        println!("VIOLATION property=C11 replay={}", args.get("replay-path").unwrap_or("-"));
+        1
+    } else {
+        println!("held");
+        0
+    }
+}
+
+// ---- C12: parser / comment insensitivity --------------------------------------------------------
+
+const COMMENTS: &[&str] = &["a", "Z", " ", "\n", "\t", "#", "0", "!", "é", "ß", "€", "中", "😀", "\u{1}", "\u{7f}", "\u{0}", "ä\u{301}", "/", "(", ")", "{", "}"];
+
+fn c12_string(rng: &mut Rng, idx: u64) -> (String, &'static str) {
+    // exhaustive small scope: every string over {[, ], +} up to length 7
+    let mut n = idx;
+    let mut len = 0u32;
+    let mut block = 1u64;
+    while len <= 7 {
+        if n < block {
+            let mut s = String::new();
+            let mut x = n;
+            for _ in 0..len {
+                s.push(['[', ']', '+'][(x % 3) as usize]);
+                x /= 3;
+            }
+            return (s, "exhaustive<=7");
+        }
+        n -= block;
+        block *= 3;
+        len += 1;
+    }
+    match rng.below(10) {
+        0 => {
+            // deep nesting, balanced
+            let d = rng.range(20, 300) as usize;
+            let mut s = String::from("+");
+            s.push_str(&"[".repeat(d));
+            s.push_str(*rng.pick(&["-", "", ">+<-", "."]));
+            s.push_str(&"]".repeat(d));
+            s.push('.');
+            (s, "deep_balanced")
+        }
+        1 => {
+            // deep nesting, unbalanced either way
+            let d = rng.range(5, 300) as usize;
+            let e = rng.range(0, 300) as usize;
+            (format!("{}{}{}", "[".repeat(d), "+", "]".repeat(e)), "deep_unbalanced")
+        }
+        2 | 3 => {
+            // valid program with one bracket flipped / removed / added
+            let gl = *rng.pick(&[8usize, 20, 60]);
+            let mut s: Vec<char> = gen::grammar(rng, gl).chars().collect();
+            if !s.is_empty() {
+                let i = rng.below(s.len() as u64) as usize;
+                match rng.below(3) {
+                    0 => s.insert(i, *rng.pick(&['[', ']'])),
+                    1 => {
+                        s.remove(i);
+                    }
+                    _ => s[i] = *rng.pick(&['[', ']', '+']),
+                }
+            }
+            (s.into_iter().collect(), "near_valid")
+        }
+        4 | 5 => {
+            let gl = *rng.pick(&[6usize, 16, 40, 100]);
+            (gen::grammar(rng, gl), "valid_grammar")
+        }
+        6 => (gen::structured(rng, true, 80), "valid_structured"),
+        _ => {
+            // bracket soup with unicode
+            let n = rng.range(0, 24);
+            let mut s = String::new();
+            for _ in 0..n {
+                match rng.below(10) {
+                    0..=2 => s.push('['),
+                    3..=5 => s.push(']'),
+                    6 => s.push('+'),
+                    7 => s.push('.'),
+                    8 => s.push(','),
+                    _ => s.push_str(*rng.pick(COMMENTS)),
+                }
+            }
+            (s, "bracket_soup")
+        }
+    }
+}
+
+/// Insert comment characters; returns the commented string and the map old char index -> new char index.
+fn c12_comment(rng: &mut Rng, s: &str) -> (String, Vec<usize>) {
+    let mut out = String::new();
+    let mut map = Vec::new();
+    let mut n = 0usize;
+    let dens = *rng.pick(&[1u64, 2, 4]);
+    for c in s.chars() {
+        while rng.chance(1, dens + 1) {
+            let k = *rng.pick(COMMENTS);
+            out.push_str(k);
+            n += k.chars().count();
+        }
+        map.push(n);
+        out.push(c);
+        n += 1;
+    }
+    if rng.chance(1, 2) {
+        out.push_str(*rng.pick(COMMENTS));
+    }
+    (out, map)
+}
+
+pub fn c12(args: &Args) -> i32 {
+    let mut t = Tally::new("C12", &args.replay_dir);
+    let start = std::time::Instant::now();
+    let total = args.count + 3280;
+    let mut idx = args.shard;
+    while idx < total {
+        if start.elapsed().as_secs() >= args.secs {
+            t.inc("stopped_by_time", 1);
+            break;
+        }
+        let mut rng = Rng::derive(args.seed, 0xC12, idx);
+        let (s, kind) = c12_string(&mut rng, idx);
+        idx += args.nshards;
+        let (sc, map) = c12_comment(&mut rng, &s);
+        t.inc("strings", 1);
+        t.inc(&format!("kind.{kind}"), 1);
+        let want = spec::check_brackets(&s);
+        let want_c = spec::check_brackets(&sc);
+        // self-consistency of the reference under comment insertion
+        let mapped = match want {
+            Ok(()) => Ok(()),
+            Err((k, p)) => Err((k, map[p])),
+        };
+        if mapped != want_c {
+            t.inc("reference_inconsistent", 1);
+            t.violation("reference", Obj::new().s("kind", "parser").s("program", &s).s("commented", &sc).s("why", "harness reference matcher is not comment-insensitive (harness bug)"));
+            continue;
+        }
+        match want {
+            Ok(()) => t.inc("balanced", 1),
+            Err((true, _)) => t.inc("unbalanced.not_opened", 1),
+            Err((false, _)) => t.inc("unbalanced.not_closed", 1),
+        }
+        let bits = *rng.pick(&[8u32, 16, 32, 64]);
+        let input: Vec<u8> = (0..4).map(|_| rng.range(0, 5) as u8).collect();
+        let sp = if want.is_ok() { spec::run(&s, &input, spec_opts(bits, false, true)) } else { None };
+        let halted = matches!(&sp, Some(x) if x.status == Status::Halted);
+        let level = *rng.pick(&[0u32, 1, 2, 3]);
+        let bits2 = *rng.pick(&[8u32, 16, 32, 64]);
+        for (variant, text) in [("plain", &s), ("commented", &sc)] {
+            let mut jobs = Vec::new();
+            for b in [Backend::IrInt, Backend::BcInt, Backend::Jit, Backend::Inplace] {
+                let mode = if halted { Mode::Exec } else { Mode::Limited(2000) };
+                jobs.push(Job { cfg: Cfg { backend: b, bits, level, mode }, io: Io::plain(&input) });
+                if b != Backend::Inplace && want.is_err() {
+                    // widths must agree on the verdict
+                    jobs.push(Job { cfg: Cfg { backend: b, bits: bits2, level: (level + 1) % 4, mode }, io: Io::plain(&input) });
+                }
+            }
+            let o = RunOpts { ceiling_s: 10, validate_bc: false, cover_bc: false, ..Default::default() };
+            let obs = run_case(text, &jobs, &o);
+            for (job, ob) in jobs.iter().zip(obs.iter()) {
+                t.inc("evaluations", 1);
+                let parsing = job.cfg.backend != Backend::Inplace;
+                let mut why: Option<String> = None;
+                match (&want, parsing) {
+                    (Ok(()), _) => {
+                        if let Some(sp) = &sp {
+                            if sp.status != Status::Cap && job.cfg.bits == bits {
+                                match judge(job, sp, ob) {
+                                    Verdict::Held => {}
+                                    Verdict::Inconclusive(w) => {
+                                        t.inc("inconclusive", 1);
+                                        t.inconclusive.push(w);
+                                    }
+                                    Verdict::Violated(w) => why = Some(format!("{variant}: {w}")),
+                                }
+                            } else if ob.end != engine::End::Normal || ob.state == sys::ST_PANICKED || ob.state == sys::ST_CREATE_ERR {
+                                why = Some(format!("{variant}: balanced program rejected or crashed (end {:?}, state {})", ob.end, ob.state));
+                            }
+                        }
+                    }
+                    (Err((not_opened, pos)), true) => {
+                        let (wk, wp) = (if *not_opened { 2 } else { 1 }, if variant == "plain" { *pos } else { map[*pos] });
+                        if ob.end != engine::End::Normal {
+                            why = Some(format!("{variant}: parsing an unbalanced string ended with {:?}", ob.end));
+                        } else if ob.state != sys::ST_CREATE_ERR {
+                            why = Some(format!("{variant}: unbalanced string accepted (state {})", ob.state));
+                        } else if ob.aux[6] != wk || ob.aux[7] != wp as u64 {
+                            why = Some(format!(
+                                "{variant}: error kind/position ({}, {}) differs from the reference ({}, {}) [1 = loop not closed, 2 = loop not opened]",
+                                ob.aux[6], ob.aux[7], wk, wp
+                            ));
+                        }
+                    }
+                    (Err(_), false) => {
+                        // in-place interpreter: only "does not panic or crash"
+                        if ob.end != engine::End::Normal || ob.state == sys::ST_PANICKED {
+                            why = Some(format!("{variant}: in-place interpreter crashed on an unbalanced string (end {:?}, state {})", ob.end, ob.state));
+                        }
+                    }
+                }
+                match why {
+                    None => t.inc("held", 1),
+                    Some(w) => {
+                        t.inc("violated", 1);
+                        let sig = format!("{}|{}", job.cfg.backend.name(), w.split(':').nth(1).unwrap_or("").trim().chars().take(30).collect::<String>());
+                        let body = job_json(text, &input, job, 0).s("why", &w).s("kind", "parser").s("plain", &s);
+                        t.violation(&sig, body);
+                    }
+                }
+            }
+        }
+        if s.chars().filter(|&c| c == '[' || c == ']').count() >= 2 {
+            t.distinct.insert(fnv64(s.as_bytes()));
+        }
+        if t.samples.len() < t.max_samples && idx % 211 < args.nshards && kind != "exhaustive<=7" {
+            t.sample(Obj::new().s("string", &s[..s.len().min(80)]).s("commented", &sc.chars().take(100).collect::<String>()).s("reference", &format!("{:?}", want)).s("kind", kind).done());
+        }
+    }
+    t.write(&args.out, &[("wall_s".to_string(), format!("{:.2}", start.elapsed().as_secs_f64()))]);
+    if t.violations.is_empty() {
+        0
+    } else {
+        1
+    }
+}
